@@ -87,6 +87,12 @@ highlight(struct vbi_search *s, cache_page *vtp,
 	s->row[0] = LAST_ROW + 1;
 	s->col[0] = 0;
 
+	/* When the match starts at the first character of the page
+	   no cell precedes it and the loop below will not set the
+	   backward resume position. */
+	s->row[1] = FIRST_ROW;
+	s->col[1] = 0;
+
 	for (i = FIRST_ROW; i < LAST_ROW; i++) {
 		vbi_char *acp = &pg->text[i * pg->columns];
 
